@@ -135,7 +135,7 @@ class YTKProduct(modules.Product):  # FIXME ?
             "(TCTC"  # BsaI (first 2 nucleotides in the overhang)
             "N"
             "NNNN"  # Type specific overhang (start)
-            "N*?"  # Template
+            "NN*?N"  # Template (at least 2 nucleotides, like any module target)
             "NNNN"  # Type specific overhang (end)
             "N"
             "GA)"  # BsaI (last 4 nucleotides in the overhang)
